@@ -31,6 +31,10 @@ FLAG_OF = {"expand_macros": {"expand_macro"}, "fill_in_map": {"expand_let_map"},
 
 def run(ctx, rep):
     ix, T = ctx.ix, ctx.typer
+    from .common import check_mapfiller_macro_arguments
+    check_mapfiller_macro_arguments(ctx, rep, "C10.13")
+    from .common import check_recursion_guard
+    check_recursion_guard(ctx, rep, "C10.12", ['jaqalpaq.core.algorithm.expand_macros.expand_macros', 'jaqalpaq.core.algorithm.fill_in_let.fill_in_let', 'jaqalpaq.core.algorithm.fill_in_map.fill_in_map', 'jaqalpaq.core.algorithm.expand_subcircuits.expand_subcircuits', 'jaqalpaq.core.algorithm.unit_timing.normalize_blocks_with_unitary_timing'], ("jaqalpaq.emulator.pygsti", "jaqalpaq.ipc", "jaqalpaq._cli", "jaqalpaq.qsyntax"))
     from .common import check_shadowed_register_names
     check_shadowed_register_names(ctx, rep, "C10.11")
     from .common import check_symbolic_qubits_left_alone
@@ -110,24 +114,73 @@ def run(ctx, rep):
         rep.ok("C10.1", cons, f"`{ast.unparse(guard_o.test)}` raises when an override is given but no let-expanding flag is set", f"{f.path}:{guard_o.lineno}")
     else:
         rep.violation("C10.1", cons, "parse_jaqal_string(text, override_dict=..) without expand_let/expand_let_map accepts the dictionary and ignores it: the circuit is built (and later executed) with the declared values, with no error or warning", f.loc(), witness="parse_jaqal_string('let n 3 ...', override_dict={'n': 1})")
-    # order: alias fill-in after let substitution (fill_in_map never precedes fill_in_let on a path)
+    # order and selection, decided by evaluating the flag tests over all 8 flag assignments: under
+    # expand_let_map let substitution runs and alias fill-in follows it; each pass runs exactly under its flag(s)
     cons = construct_of(f, "order:let-before-map")
-    if "fill_in_map" in calls and "fill_in_let" in calls:
-        bad_order = False
-        for m in calls["fill_in_map"]:
-            mn = cfg.containing_stmt_node(m, f.body)
-            for l in calls["fill_in_let"]:
-                ln = cfg.containing_stmt_node(l, f.body)
-                if ln in cfg.reachable_from(mn) and ln != mn:
-                    bad_order = True
-        guarded_map_after_let = all(
-            any(cfg.dominates(cfg.containing_stmt_node(l, f.body), cfg.containing_stmt_node(m, f.body)) for l in calls["fill_in_let"])
-            for m in calls["fill_in_map"]
-        )
-        if bad_order or not guarded_map_after_let:
-            rep.violation("C10.1", cons, "fill_in_map can run before (or without) fill_in_let under expand_let_map", f.loc())
-        else:
-            rep.ok("C10.1", cons, "every fill_in_map call is dominated by a fill_in_let call")
+    FLAGS = ("expand_macro", "expand_let", "expand_let_map")
+
+    def ev(t, env):
+        if isinstance(t, ast.Name) and t.id in env:
+            return env[t.id]
+        if isinstance(t, ast.UnaryOp) and isinstance(t.op, ast.Not):
+            v = ev(t.operand, env)
+            return None if v is None else (not v)
+        if isinstance(t, ast.BoolOp):
+            vals = [ev(v, env) for v in t.values]
+            if any(v is None for v in vals):
+                return None
+            return all(vals) if isinstance(t.op, ast.And) else any(vals)
+        return None
+
+    call_name = {}
+    for name, nodes in calls.items():
+        for n in nodes:
+            call_name[id(n)] = name
+
+    def simulate(stmts, env, out):
+        for st in stmts:
+            if isinstance(st, ast.If):
+                if not (names_in(st.test) & set(FLAGS)):
+                    continue  # not a flag test (validation of arguments etc.)
+                v = ev(st.test, env)
+                if v is None:
+                    return False
+                if not simulate(st.body if v else st.orelse, env, out):
+                    return False
+            else:
+                for n in ast.walk(st):
+                    if id(n) in call_name:
+                        out.append(call_name[id(n)])
+        return True
+
+    problems, decided = [], True
+    import itertools
+    for vals in itertools.product((False, True), repeat=3):
+        env = dict(zip(FLAGS, vals))
+        seq = []
+        if not simulate(f.body, env, seq):
+            decided = False
+            break
+        want_let = env["expand_let"] or env["expand_let_map"]
+        label = ", ".join(k for k, v in env.items() if v) or "no flag"
+        if want_let != ("fill_in_let" in seq):
+            problems.append(f"{label}: let substitution {'missing' if want_let else 'applied'}")
+        if env["expand_let_map"] != ("fill_in_map" in seq):
+            problems.append(f"{label}: alias fill-in {'missing' if env['expand_let_map'] else 'applied'}")
+        if env["expand_macro"] != ("expand_macros" in seq):
+            problems.append(f"{label}: macro expansion {'missing' if env['expand_macro'] else 'applied'}")
+        if "fill_in_map" in seq and "fill_in_let" in seq and seq.index("fill_in_map") < seq.index("fill_in_let"):
+            problems.append(f"{label}: alias fill-in runs before let substitution")
+        if "expand_macros" in seq and "fill_in_let" in seq and seq.index("expand_macros") < seq.index("fill_in_let"):
+            problems.append(f"{label}: macros are expanded before let substitution, so an overriding value used only in an argument that the macro body ignores is dropped unchecked")
+        if len(seq) != len(set(seq)):
+            problems.append(f"{label}: a pass runs twice ({seq})")
+    if not decided:
+        rep.undecided("C10.1", cons, "a flag test is not a boolean combination of the three flags", f.loc())
+    elif problems:
+        rep.violation("C10.1", cons, "; ".join(problems[:3]), f.loc())
+    else:
+        rep.ok("C10.1", cons, "for all 8 flag assignments: each pass runs exactly under its flag(s), once, and alias fill-in follows let substitution")
 
     # ------------------------------------------------------------ C10.2
     rep.rule("C10.2", "blocks produced by macro substitution are spliced into a same-kind parent (legal nesting)", floor=2)
